@@ -57,8 +57,8 @@ std::string Options::get(const std::string &key, const std::string &dflt) const 
 namespace {
 
 constexpr int MAXDEPTH = 32768;
-constexpr int MAXSPLIT = 512;  // longest prefix that can be handed to another worker
-constexpr int QCAP = 1 << 12;
+constexpr int MAXSPLIT = 160;  // longest prefix that can be handed to another worker
+constexpr int QCAP = 1 << 14;
 constexpr int MAXVIOL = 8;
 constexpr int MAXWORKERS = 64;
 constexpr int MAXKF = 64;
@@ -67,7 +67,7 @@ constexpr int MAXCOUNTERS = 48;
 struct Pos {
   uint16_t n, chosen, label;
   uint8_t kinds[MAXALT];  // all zero for picks with more than MAXALT (free) alternatives
-  uint8_t pad[2];
+  uint16_t done_upto;     // alternatives <= max(chosen, done_upto) are explored or handed to other workers
   inline uint8_t kind(int alt) const { return alt < MAXALT ? kinds[alt] : (uint8_t)FREE; }
 };
 
@@ -275,7 +275,7 @@ int Ctx::pick_costed(const char *label, int n, const uint8_t *kinds) {
     p->label = lh;
     memset(p->kinds, 0, sizeof p->kinds);
     memcpy(p->kinds, kinds, nk);
-    p->pad[0] = p->pad[1] = 0;
+    p->done_upto = 0;
     g_slot->depth++;
   }
   int c = p->chosen;
@@ -579,22 +579,23 @@ bool backtrack(Slot *s) {
     if (pass == 1 && !hungry) break;
     for (int i = s->item_len; i < depth && i < MAXSPLIT; ++i) {
       Pos &p = s->stack[i];
-      if (p.pad[0]) continue;
       if (pass == 0 && i >= g_opt.split_depth) break;
-      bool any = false, all = true;
-      for (int alt = p.chosen + 1; alt < p.n; ++alt) {
-        if (!affordable(g_ub[i], g_ubt[i], p.kind(alt))) continue;
-        any = true;
-        if (!queue_push(s->stack, i + 1, alt)) { all = false; break; }
+      bool any = false;
+      int first = (p.chosen > p.done_upto ? p.chosen : p.done_upto) + 1;
+      for (int alt = first; alt < p.n; ++alt) {
+        if (affordable(g_ub[i], g_ubt[i], p.kind(alt))) {
+          if (!queue_push(s->stack, i + 1, alt)) break;  // queue full: the rest stays with this worker
+          any = true;
+        }
+        p.done_upto = (uint16_t)alt;
       }
-      if (all) p.pad[0] = 1;
       if (pass == 1 && any) break;  // one position per call is enough
     }
   }
   for (int i = depth - 1; i >= s->item_len; --i) {
     Pos &p = s->stack[i];
-    if (p.pad[0]) continue;
-    for (int alt = p.chosen + 1; alt < p.n; ++alt) {
+    int first = (p.chosen > p.done_upto ? p.chosen : p.done_upto) + 1;
+    for (int alt = first; alt < p.n; ++alt) {
       if (!affordable(g_ub[i], g_ubt[i], p.kind(alt))) continue;
       p.chosen = (uint16_t)alt;
       s->depth = i + 1;
@@ -706,6 +707,7 @@ int replay_in_child(const Pos *st, int depth, bool tracing, std::string *sig, ui
   pid_t c = fork();
   if (c == 0) {
     g_slot = s;
+    g_opt.cache = false;  // a replay must run to its end: it is never cut at a covered state
     alarm(g_opt.exec_alarm_s * 4);
     run_exec(tracing);
     fflush(stdout);
